@@ -144,7 +144,7 @@ package memory
 
 // "either applies all ... or changes nothing": a refused request leaves every store's tuples and changelog as they were
 //@ func (*MemoryBackend).Write(s, ctx, store, deletes, writes, opts) (err)
-//@   property C12 C16
+//@   property C12 C16 C14
 //@   option nosafety
 //@   requires s != nil
 //@   requires @noNilRecords forall j int :: 0 <= j && j < len(s.tuples[store]) ==> s.tuples[store][j] != nil
@@ -155,6 +155,17 @@ package memory
 //@     ghost sanErr error = nil
 //@     before call memory.sanitizeTuplesWriteDelete args recs, dels, wrs, o : assert recs == s.tuples[store] && dels == deletes && wrs == writes
 //@     after call memory.sanitizeTuplesWriteDelete returning a, b, e : sanitized = true ; sanErr = e
+// the whole request — commit timestamp, validation against the current tuples, and the application — runs inside ONE
+// critical section of the tuples mutex held for writing: validation and application see the same state (C12), and
+// commit timestamps (from which the changelog ULIDs that ReadChanges pages by are derived) are taken in commit order (C14)
+//@   option monitor_props criticalSection=C12,C14
+//@   monitor criticalSection
+//@     ghost locked = false
+//@     after call (*sync.RWMutex).Lock args m : locked = true
+//@     after call (*sync.RWMutex).Unlock | (*sync.RWMutex).RLock | (*sync.RWMutex).RUnlock : locked = false
+//@     before call timestamppb.Now : assert locked
+//@     before call memory.sanitizeTuplesWriteDelete args _ : assert locked
+//@     before call builtin.mapupdate:other args m, k, v : assert locked
 
 // ------------------------------------------------------------------ C16 / C17: stores and models are kept per store id
 //@ func (*MemoryBackend).GetStore(s, ctx, storeID) (res, err)
